@@ -43,7 +43,7 @@ ASSUMPTIONS = [
 ]
 
 REC = recording(duration=100.0)
-OOV = data.Tag(term=term("species"), value="zzz")
+OOV = data.Tag(term=term("call"), value="s0")  # out of vocabulary, but shares its value with vocabulary tag s0
 
 
 def vocab(k):
